@@ -538,6 +538,7 @@ func (in *Interp) check(c *Term, msg string) {
 		return
 	}
 	if c.IsFalse() {
+		in.confirmPC() // lazily added assumptions may make this path infeasible
 		in.reportViolation("check", msg, in.where(), in.stack())
 		panic(&pathEnd{kind: "violation"})
 	}
